@@ -1192,6 +1192,29 @@ def gen_system(rng, flavour, thorough):
     return desc
 
 
+def gen_solvent_system(rng):
+    """a short chain plus several ONE-residue molecules (solvent, ions) that carry region restraints of their own:
+    molecules that consist of a single residue are placed by the start-point test alone"""
+    box = float(rng.choice([6, 7, 8]))
+    mt = chain_type(rng, "A", rng.randint(2, 5))
+    sol = chain_type(rng, "B", 1)
+    count = rng.randint(4, 8)
+    desc = dict(moltypes=[mt, sol], molecules=[("A", 1), ("B", count)], build=[], options={}, box=[box] * 3)
+    item = gen_geom_item(rng, sol, box)
+    item["start"], item["stop"] = 1, 2
+    if item["io"] == "in":
+        # a small region: an unrestrained start point is outside it with high probability
+        item["params"] = [p * 0.6 for p in item["params"]]
+    else:
+        # a large excluded region
+        item["params"] = [box * 0.35 for _ in item["params"]]
+    desc["build"].append(dict(mol="B", frm=1, to=1 + count, items=[item]))
+    if rng.random() < 0.5:
+        desc["build"].append(dict(mol="A", frm=0, to=1, items=[gen_geom_item(rng, mt, box)]))
+    desc["options"] = dict(grid_spacing=0.25)
+    return desc
+
+
 def nontrivial(desc):
     return bool(desc.get("cycles")) or any(blk["items"] for blk in desc["build"])
 
@@ -1485,6 +1508,8 @@ def e2e_cases(ctx):
     for i in range(ctx.budget(12, 120)):
         renumbered.append(dict(stream="e2e", flavour="split+build-file", desc=tighten(sub, gen_split_system(sub)),
                                seed=sub.randint(0, 10 ** 6)))
+    for i in range(ctx.budget(6, 60)):
+        renumbered.insert(i, dict(stream="e2e", flavour="solvent", desc=gen_solvent_system(sub), seed=sub.randint(0, 10 ** 6)))
     cases = renumbered + cases
     return cases
 
